@@ -31,6 +31,7 @@ RULE = (
     'get_lattice, transitions}; deriving menu {filter x3, every slice a:b:c with a,b in {None,-4..4}, c in {None,1,2,-1} '
     'selecting >=1 frame, list index, split(n,equal)[k], extend(other), drift correction x2, center_of_mass, cache round '
     'trip}; observations: positions, displacements, distances, metadata, filter, slice, tracer diffusivity + MSD; <= 3 live objects, derivation nesting <= 2; state = exact bytes of the real representation + reference'
+    '; bases use Species, oxidation-state species and Elements; event extend-foreign (a run recorded at another time step: refusal is a no-op)'
 )
 LEVEL_TEXT = (
     'Explicit-state model checking of the real Trajectory object: all call sequences up to the depth bound '
